@@ -17,10 +17,18 @@ def one_trace(rng, tid, prop):
         rec.do("set_options", [], keep=False, kw=kw, bad=[])
     names = gen.rand_names(rng, 1, 3, pool=(0, 1, 2, 10))
     kind = rng.choice(["int", "int", "float"])
+    narrow = rng.choice(["bool", "uint8", "int8"]) if kind == "int" and rng.random() < 0.25 else None
     polys = []
     for _ in range(2):
         spec = gen.rand_poly_spec(rng, shape=rng.choice([(), (2,), (2, 2), (1, 2)]), names=names, kind=kind,
                                   max_terms=4, max_exp=3)
+        if narrow:
+            # narrow coefficient types (seed C06f): exponent x coefficient exceeds the type, so the exact derivative
+            # needs the promotion numpy performs; coefficients are non-zero multiples of 100 / booleans
+            f = {"bool": lambda c: c != 0, "uint8": lambda c: (abs(c) % 3) * 100,
+                 "int8": lambda c: max(-1, min(1, c)) * 100}[narrow]
+            spec["coefs"] = [[f(c) for c in row] for row in spec["coefs"]]
+            spec["dtype"] = narrow
         polys.append(gen.maybe_view(rec, rng, rec.new(build_poly(spec)), 0.2))
     for _ in range(rng.randint(4, 8)):
         a = rng.choice(polys)
